@@ -74,6 +74,9 @@ impl DiameterClient {
     ///    A `Result` containing a `ClientHandler` or an error if the connection cannot be established.
     pub async fn connect(&mut self) -> Result<ClientHandler> {
         let stream = TcpStream::connect(self.address.clone()).await?;
+        // Every connection has its own waiter table and its own closed flag: the reader of an
+        // earlier connection releases (and closes) only what was sent on that connection.
+        self.msg_caches = Arc::new(Mutex::new(HashMap::new()));
         self.closed = Arc::new(AtomicBool::new(false));
 
         if self.config.use_tls {
